@@ -731,6 +731,22 @@ class ApplicationStartJobs(ApplicationJobs):
                 self.logger.debug(f'ApplicationStartJobs.on_command_added: {command.process.namespec} cannot'
                                   f' be started on any of the chosen Supvisors among {self.identifiers}')
 
+    def on_instances_invalidation(self, invalidated_identifiers: NameList,
+                                  failed_processes: Set[ProcessStatus]) -> None:
+        """ In a non-distributed application, the Supvisors instances are decided when the job is prepared.
+        A planned command cannot be sent anymore to a Supvisors instance that has been lost in the meantime.
+
+        :param invalidated_identifiers: the identifiers of the Supvisors instances that have just been declared SILENT
+        :param failed_processes: the processes that were running on the invalidated Supvisors instances
+        :return: None
+        """
+        super().on_instances_invalidation(invalidated_identifiers, failed_processes)
+        for command in sum(self.planned_jobs.values(), []):
+            if command.identifier in invalidated_identifiers:
+                self.logger.warn(f'ApplicationStartJobs.on_instances_invalidation: Supvisors={command.identifier}'
+                                 f' planned to start {command.process.namespec} is lost')
+                command.identifier = None
+
     def get_load_requests(self) -> LoadMap:
         """ Extract by Supvisors instance the processes that are planned to start but still stopped
         and sum their expected load.
